@@ -26,6 +26,7 @@ FAM = {
  'if_else': lambda b: 'if c then y else %s' % b, 'if_cond': lambda b: 'if %s then x else y' % b, 'let_bind': lambda b: 'let a = %s; in a' % b,
  'with_env': lambda b: 'with %s; x' % b, 'formal_default': lambda b: '{ a ? %s }: a' % b, 'select_default': lambda b: 'x.a or (%s)' % b,
  'attr_interp': lambda b: '{ ${"k"} = %s; }' % b, 'neg': lambda b: '-(%s)' % b, 'has': lambda b: '(%s) ? a' % b,
+ 'import_paren': lambda b: 'import (%s)' % b, 'import_call': lambda b: 'import ./x.nix (%s)' % b, 'import_set': lambda b: 'import ./x.nix { a = %s; }' % b,
  'lam_nl': lambda b: 'a:\n%s' % b, 'with_nl': lambda b: 'with a;\n%s' % b, 'let_ml': lambda b: 'let\n  a = 1;\nin\n%s' % b,
 }
 LEAVES = {'atom': 'x', 'mlset': '{\n  a = 1;\n}'}
